@@ -736,6 +736,11 @@ def r5_tabulated_writers(ctx) -> None:
         ("same negated key", [_It({"a|neq": 1}), _It({"a|neq": 2})], AND, "<raises>"),
         ("same negated all-key", [_It({"a|all|neq": [1, 2]}), _It({"a|all|neq": 3})], AND, "<raises>"),
         ("negated and plain key", [_It({"a|neq": 1}), _It({"a": 2})], AND, {"a|neq": 1, "a": 2}),
+        # the values of one item are alternatives: (a=1 or a=2) and a=3 is not 'all of 1, 2, 3'
+        ("same key, value list then single value", [_It({"a": [1, 2]}), _It({"a": 3})], AND, "<raises>"),
+        ("same key, single value then value list", [_It({"a": 3}), _It({"a": [1, 2]})], AND, "<raises>"),
+        ("same key, two value lists", [_It({"a": [1, 2]}), _It({"a": [3, 4]})], AND, "<raises>"),
+        ("same key, one-element lists", [_It({"a": [1]}), _It({"a": [2]})], AND, {"a|all": [1, 2]}),
     ]
     wrong = []
     for name, items, linking, want in cases:
